@@ -46,6 +46,66 @@ def _calls(fn) -> set[str]:
     return out
 
 
+def _ret_expr(fn):
+    """ast.dump of the expression of a function whose body is (docstring +) one `return <expr>`; else None"""
+    try:
+        f = ast.parse(textwrap.dedent(inspect.getsource(fn))).body[0]
+    except Exception:  # noqa
+        return None
+    body = [s_ for s_ in f.body if not (isinstance(s_, ast.Expr) and isinstance(getattr(s_, "value", None), ast.Constant))]
+    if len(body) == 1 and isinstance(body[0], ast.Return) and body[0].value is not None:
+        return ast.dump(body[0].value)
+    return None
+
+
+def _expr(src):
+    return ast.dump(ast.parse(src, mode="eval").body)
+
+
+def _has_stmt(fn, src):
+    """does the function contain a statement / expression whose dump equals that of `src`"""
+    try:
+        tree = ast.parse(textwrap.dedent(inspect.getsource(fn)))
+    except Exception:  # noqa
+        return False
+    want = ast.dump(ast.parse(src).body[0]) if not src.startswith("EXPR ") else _expr(src[5:])
+    return any(ast.dump(n) == want for n in ast.walk(tree))
+
+
+def zip_lookup_sites():
+    """X: member lookup of the shared ZIP context is by exact name.  Fail-closed: every accessor must be literally
+    `path in self._namelist` / `self._zip.read(path)` / ... ; a folding, normalising or indirect lookup does not match."""
+    from sharepoint2text.parsing.extractors.util import zip_context as zc, zip_utils as zu, ooxml_context as oc
+    from sharepoint2text.parsing.extractors.ms_modern import docx_extractor as dx, pptx_extractor as px
+    from sharepoint2text.parsing.extractors import epub_extractor as ex
+    from sharepoint2text.parsing.extractors.open_office import odt_extractor as ot, odp_extractor as op_, ods_extractor as os_
+    Z = zc.ZipContext
+    sites = {
+        "ZipContext.__init__: _namelist = set(zip.namelist())": _has_stmt(Z.__init__, "self._namelist = set(self._zip.namelist())"),
+        "ZipContext.namelist": _ret_expr(Z.namelist.fget) == _expr("self._namelist"),
+        "ZipContext.exists": _ret_expr(Z.exists) == _expr("path in self._namelist"),
+        "ZipContext.read_bytes": _ret_expr(Z.read_bytes) == _expr("self._zip.read(path)"),
+        "ZipContext.open_stream": _ret_expr(Z.open_stream) == _expr("self._zip.open(path)"),
+        "ZipContext.read_text": _ret_expr(Z.read_text) == _expr("read_zip_text(self._zip, path)"),
+        "ZipContext.read_xml_root": _ret_expr(Z.read_xml_root) == _expr("read_zip_xml_root(self._zip, path)"),
+        "zip_utils.read_zip_text": _has_stmt(zu.read_zip_text, "EXPR zf.read(path)"),
+        "zip_utils.read_zip_xml_root": _has_stmt(zu.read_zip_xml_root, "EXPR zf.read(path)"),
+    }
+    accessors = ("exists", "read_bytes", "read_text", "read_xml_root", "open_stream", "namelist")
+    subs = [oc.OOXMLZipContext, dx._DocxContext, px._PptxContext, ex._EpubContext]
+    for m_, nm_ in ((ot, "_OdtContext"), (op_, "_OdpContext"), (os_, "_OdsContext")):
+        if hasattr(m_, nm_):
+            subs.append(getattr(m_, nm_))
+    for c in subs:
+        sites[f"{c.__name__}: is a ZipContext and overrides no accessor"] = issubclass(c, Z) and not any(
+            a in k.__dict__ for k in c.__mro__ if k not in (Z, object) for a in accessors)
+    for c in (dx._DocxContext, px._PptxContext):
+        g = c.get_image_data
+        sites[f"{c.__name__}.get_image_data"] = (_has_stmt(g, "EXPR image_path not in self._namelist")
+                                                 and _has_stmt(g, "return self.read_bytes(image_path)"))
+    return sites
+
+
 def gen_tables(ctx):
     from sharepoint2text.parsing.extractors.ms_modern import docx_extractor as dx, pptx_extractor as px, xlsx_extractor as xx
     from sharepoint2text.parsing.extractors import epub_extractor as ex
@@ -96,6 +156,8 @@ def gen_tables(ctx):
             [pair(coq_str(k), coq_str(v)) for k, v in m._CONTENT_TYPE_MAP.items()]) + ".\n"
     t += "Definition resolver_sites : list (str * bool) := " + coq_list(
         [pair(coq_str(k), coq_bool(v)) for k, v in sites.items()]) + ".\n"
+    t += "Definition zip_lookup_sites : list (str * bool) := " + coq_list(
+        [pair(coq_str(k), coq_bool(v)) for k, v in zip_lookup_sites().items()]) + ".\n"
     t += f"Definition sig_png : list Z := {zl(pick(lambda c: c.startswith(bytes([0x89]) + b'PNG')))}.\n"
     t += f"Definition sig_bmp : list Z := {zl(pick(lambda c: c == b'BM'))}.\n"
     t += f"Definition sig_gif87 : list Z := {zl(pick(lambda c: c == b'GIF87a'))}.\n"
@@ -309,6 +371,32 @@ def gen_spec(ctx, fmt, idx):
         else:
             data = Wr.jpeg(w, h, idx * 7 + i, app_segments=rng.randint(0, 2))
         media.append({"part": part, "kind": kind, "w": w, "h": h, "data": data + b"#%d.%d" % (idx, i), "present": True})
+    # twins: two members whose names differ only in letter case / Unicode normalisation form / a trailing space of
+    # the stem; both are referenced exactly and each reference must be served its own bytes
+    twins = None
+    if media and rng.random() < 0.3:
+        a = rng.randrange(len(media))
+        ma = media[a]
+        dirn, base = ma["part"].rsplit("/", 1)
+        how = rng.choice(["case", "case", "nfc", "space"])
+        if how == "case":
+            tb = base[0].upper() + base[1:]
+        elif how == "nfc":
+            ma["part"] = dirn + "/" + base.replace("image", "imag\u00e9")
+            tb = base.replace("image", "image\u0301")
+        else:
+            stem, ext_ = base.rsplit(".", 1)
+            tb = stem + " ." + ext_
+        w2, h2 = rng.randint(1, 300), rng.randint(1, 300)
+        d2 = Wr.jpeg(w2, h2, idx * 7 + 5) if ma["kind"] == "jpeg" else Wr.MAKERS[ma["kind"]](2, 2, idx * 7 + 5)
+        if ma["kind"] == "png":
+            d2 = d2[:16] + w2.to_bytes(4, "big") + h2.to_bytes(4, "big") + d2[24:]
+        elif ma["kind"] == "gif":
+            d2 = d2[:6] + w2.to_bytes(2, "little") + h2.to_bytes(2, "little") + d2[10:]
+        elif ma["kind"] == "bmp":
+            d2 = d2[:18] + w2.to_bytes(4, "little") + h2.to_bytes(4, "little") + d2[26:]
+        media.append({"part": dirn + "/" + tb, "kind": ma["kind"], "w": w2, "h": h2, "data": d2 + b"#twin%d" % idx, "present": True})
+        twins = (a, len(media) - 1, how)
     nunits = rng.randint(1, 3) if fmt in UNIT_FORMATS else 1
     styles = {"docx": ["rel"] * 5 + ["parent", "abs", "dot", "updown", "missing", "external"],
               "pptx": ["rel"] * 5 + ["parent", "abs", "dot", "updown", "missing", "external"],
@@ -351,6 +439,12 @@ def gen_spec(ctx, fmt, idx):
             if fmt == "xlsx":
                 pl.setdefault("anchor", "two")
             unit.append(pl)
+        if twins and u == 1:
+            for j_, m_ in enumerate(twins[:2]):
+                tp = {"style": "rel", "rid": f"rIdT{j_}", "m": m_, "target": _target(spec, fmt, 1, media[m_]["part"], "rel"), "twin": twins[2]}
+                if fmt == "xlsx":
+                    tp["anchor"] = "two"
+                unit.insert(j_, tp)
         # unique rids per source part
         seen = {}
         for pl in unit:
@@ -426,7 +520,8 @@ def check_spec(ctx, spec, doc, units, replay):
                 F(f"{fmt}-unit-attribution", f"the image placed on unit {uno} ({media[pl['m']]['part']}) is returned on another unit "
                   f"(sheet files {spec.get('sheet_files')})")
             else:
-                F(f"{fmt}-image-lost:{pl['style']}", f"an embedded image referenced as {pl['target']!r} ({pl['style']} target, part "
+                F(f"{fmt}-image-lost:{pl['style']}" + (f":twin-{pl['twin']}" if pl.get("twin") else ""),
+                  f"an embedded image referenced as {pl['target']!r} ({pl['style']} target, part "
                   f"{media[pl['m']]['part']}) is not returned" + (f" on unit {uno}" if per_unit else " by iterate_images()"))
     # soundness
     extra = {m for _, _, m in spec.get("extra_rels", [])} if fmt == "docx" else set()
@@ -581,6 +676,79 @@ def packages(ctx):
     ctx.extra["package_cases"] = len(cases)
 
 
+# ------------------------------------------------------------------------------------ generated PDFs
+def pdfs(ctx):
+    """Hand-written PDFs (c14_writers.build_pdf): N pages drawing DCTDecode image XObjects, one XObject shared by
+    several pages, several on one page, pages without images.  Oracle: every page's images are the XObjects the page
+    draws, in content-stream order, each attributed to ITS page, bytes identical to the embedded JPEG."""
+    from sharepoint2text.parsing.extractors.pdf.pdf_extractor import read_pdf
+    rng = ctx.rng
+    cases, info = [], []
+    for idx in range(ctx.n(30, 250)):
+        nimg = rng.randint(1, 4)
+        images = []
+        for i in range(nimg):
+            w, h = rng.randint(1, 300), rng.randint(1, 300)
+            images.append({"data": Wr.jpeg(w, h, idx * 5 + i, app_segments=rng.randint(0, 2)) + b"#pdf%d.%d" % (idx, i), "w": w, "h": h})
+        npages = rng.randint(1, 5)
+        pages = [[rng.randrange(nimg) for _ in range(rng.choice([0, 1, 1, 2, 3]))] for _ in range(npages)]
+        if rng.random() < 0.5:                         # a logo: one XObject on every page
+            logo = rng.randrange(nimg)
+            pages = [[logo] + p if rng.random() < 0.9 else p for p in pages]
+        data = Wr.build_pdf(images, pages)
+        by_sha = {sha(m["data"]): i for i, m in enumerate(images)}
+        replay = {"format": "pdf", "package": data, "pages": pages, "images": [{"w": m["w"], "h": m["h"], "sha256": sha(m["data"])} for m in images]}
+        ctx.case(("pdf", pages, [(m["w"], m["h"]) for m in images]), any(pages), kind="pdf:" + ("shared" if any(
+            i in q for k, p_ in enumerate(pages) for i in p_ for q in pages[k + 1:]) else "plain"))
+        F = lambda key, what: ctx.finding(key, "PDF: " + what, replay)
+        try:
+            res = next(read_pdf(io.BytesIO(data)))
+            units = [[(i.get_bytes().read(), i.get_content_type(), dict(i.get_metadata())) for i in u.get_images()] for u in res.iterate_units()]
+            doc = [(i.get_bytes().read(), dict(i.get_metadata())) for i in res.iterate_images()]
+        except Exception as e:  # noqa
+            F(f"pdf-extraction-raises:{type(e).__name__}", f"extraction of a generated PDF raised {e!r}")
+            continue
+        if len(units) != len(pages):
+            F("pdf-page-count", f"{len(units)} units for {len(pages)} pages")
+            continue
+        for k, (want, got) in enumerate(zip(pages, units), 1):
+            ids = [by_sha.get(sha(b)) for b, _, _ in got]
+            if ids != want:
+                F("pdf-page-images", f"page {k} draws image XObjects {want} (content-stream order) but its unit returns {ids} "
+                  "(None = bytes differ from every embedded JPEG)")
+                continue
+            for (b, ct, md), i in zip(got, want):
+                if md.get("unit_number") != k:
+                    F("pdf-unit-number", f"an image drawn on page {k} is attributed to page {md.get('unit_number')} "
+                      f"(XObject Im{i + 1}, pages drawing it: {[q + 1 for q, p_ in enumerate(pages) if i in p_]})")
+                if ct != "image/jpeg":
+                    F("pdf-content-type", f"content type {ct!r} for a DCTDecode image")
+                if (md.get("width"), md.get("height")) != (images[i]["w"], images[i]["h"]):
+                    F("pdf-dimensions", f"width/height {(md.get('width'), md.get('height'))}, the XObject declares {(images[i]['w'], images[i]['h'])}")
+            if [md.get("image_number") for _, _, md in got] != list(range(1, len(got) + 1)):
+                F("pdf-page-numbering", f"image numbers on page {k} are {[md.get('image_number') for _, _, md in got]}")
+        flat = [(sha(b), md.get("image_number"), md.get("unit_number")) for u in units for b, _, md in u]
+        if flat != [(sha(b), md.get("image_number"), md.get("unit_number")) for b, md in doc]:
+            F("pdf-views", "concatenated unit.get_images() differs from iterate_images()")
+        nums = [md.get("image_number") for _, md in doc]
+        if nums != list(range(1, len(nums) + 1)):
+            F("pdf-numbering", f"image numbers over iterate_images() are {nums[:12]}, not 1..{len(nums)} (restart on every page)")
+        names = [f"Im{i + 1}" for i in range(len(images))]
+        item = lambda b, md: f"({coq_Z(md.get('image_number') or 0)}, {coq_str('Im%d' % (by_sha[sha(b)] + 1) if sha(b) in by_sha else '?')})"
+        cases.append(f"({coq_Z(8)}, {coq_str('')}, {coq_list([coq_str(n) for n in names])}, "
+                     + coq_list([coq_list([f"({coq_str('Im%d' % (i + 1))}, {coq_Z(0)})" for i in p_]) for p_ in pages]) + ", "
+                     + coq_list([coq_list([item(b, md) for b, _, md in u]) for u in units]) + ")")
+        info.append(pages)
+    ok, failing, log = coq_eval_shards(
+        ctx, "pdf", "From Coq Require Import ZArith List.\nImport ListNotations.\nFrom S2T Require Import Lib.PyStr C14.Model C14.Corr.\n",
+        "corr_pipeline", cases, shard=250, ty="Z * str * list str * list (list (str * Z)) * list (list (Z * str))")
+    ctx.traces += len(cases)
+    ctx.disagreements += len(failing)
+    ctx.obligation("correspondence:pdf pages (XObjects drawn, per-page numbering) == implementation on generated PDFs", ok and not failing,
+                   (f"{len(failing)} disagreements, first pages: {info[failing[0]] if failing else ''} " + log)[:1200])
+    ctx.extra["pdf_cases"] = len(cases)
+
+
 # ------------------------------------------------------------------------------------ fixtures: view laws
 def canon_table(tb):
     """cells compared as text (XlsUnit stringifies the cells of the sheet table it copies)"""
@@ -653,7 +821,10 @@ def run(ctx):
         "oracles: zipfile (namelist membership and member bytes), ElementTree parsing, mimetypes.guess_type (ODF content types), "
         "openpyxl (sheet names) — recorded/observed in the correspondence, opaque payload type in the theorems",
         "modelled by hand, tied by differential runs: resolve_part_name, the extractor-level resolvers, the eight image pipelines "
-        "(Corr.pipeline), the sniffers; PDF and RTF image handling are NOT modelled (pypdf oracle; fixtures only)",
+        "(Corr.pipeline), the sniffers; PDF: pypdf lists and decodes the XObjects (oracle) — page attribution, order, per-page "
+        "numbering and byte identity are checked on generated PDFs (c14_writers.build_pdf, DCTDecode pass-through), correspondence-only; "
+        "RTF image handling is NOT modelled (fixtures only)",
+        "X: fail-closed AST match of util/zip_context.py accessors (exact-name member lookup, no subclass override)",
         "testing infrastructure: tools/props/c14_writers.py (image files, OOXML/ODF/EPUB package writers)",
     ]
     ctx.assumptions += ["media bytes are opaque values (type parameter) in the numbering/pass-through theorems",
@@ -664,13 +835,14 @@ def run(ctx):
         "C14_resolve_names_a_part", "C14_sniff_total", "C14_sniff_png", "C14_sniff_gif", "C14_sniff_bmp", "C14_sniff_jpeg",
         "C14_image_numbers", "C14_running_numbers", "C14_restart_numbers_refuted", "C14_ods_numbers_refuted",
         "C14_views_coincide", "C14_unit_content_in_document", "C14_xlsx_views", "C14_docx_unit_images_in_document",
-        "C14_odf_href_legacy_refuted", "C14_odf_href_legacy_partial", "C14_odf_href_resolved", "C14_sniff_jpeg_util"])
+        "C14_odf_href_legacy_refuted", "C14_odf_href_legacy_partial", "C14_odf_href_resolved", "C14_sniff_jpeg_util", "C14_member_lookup_exact"])
     ctx.prove("C14/Inst.v", ["Gen/C14Tables.vo", "C14/Corr.vo"], expected=[
         "C14_sof_markers_match", "C14_content_types_match", "C14_signatures_match", "C14_anchor_order"])
-    ctx.prove("C14/InstSites.v", ["Gen/C14Tables.vo"], expected=["C14_resolver_sites"])
+    ctx.prove("C14/InstSites.v", ["Gen/C14Tables.vo"], expected=["C14_resolver_sites", "C14_zip_lookup_exact"])
     corr_resolve(ctx)
     corr_sniff(ctx)
     packages(ctx)
+    pdfs(ctx)
     fixtures(ctx)
 
 
